@@ -2005,11 +2005,12 @@ func (g Gateway) Uint32SliceDelete(ctx context.Context, in *hydrapb.Uint32SliceD
 				errorsWhileDelete = append(errorsWhileDelete, err.Error())
 			}
 
+			// check the length of the slice in the treasure while the guard is still held
+			// (with write interval 0 Save releases it); if the length is 0, we can delete the treasure
+			size, err := treasureObj.Uint32SliceSize()
+
 			treasureObj.Save(guardID)
 
-			// check the length of the slice in the treasure
-			// if the length is 0, we can delete the treasure
-			size, err := treasureObj.Uint32SliceSize()
 			if err != nil || size == 0 {
 				// DeleteTreasure takes the guard of this treasure itself: let go of ours first,
 				// otherwise the request waits for itself forever (the deferred release is then a no-op)
